@@ -204,11 +204,16 @@ def read(prog, rep, tag):
         ok = ok and len(pk) == 1
     rep.ob(P, "write-size" + tag, ok, "sdo_write sends the value's packed bytes with size = packed_len() to the given index/sub-index", loc=wr.span, how="dataflow")
     gd = False
+    pw_ = Prov(wr)
     for cd in q.conds(wr):
-        if cd.kind == "cmp" and cd.op in ("Gt", "Le") and q.const_int(cd.rhs) == 4:
-            gt_t = cd.true_target() if cd.op == "Gt" else cd.false_target()
-            le_t = cd.false_target() if cd.op == "Gt" else cd.true_target()
-            gd = all(c.bb in q.edge_dominated(wr, cd.bb, le_t) for c in dl)
+        if cd.kind != "cmp" or cd.op not in ("Gt", "Le", "Lt", "Ge"):
+            continue
+        # packed_len() compared with 4 (a literal, or the length of the 4 byte expedited buffer), either way round
+        for a_, b__, op_ in ((cd.lhs, cd.rhs, cd.op), (cd.rhs, cd.lhs, {"Gt": "Lt", "Lt": "Gt", "Le": "Ge", "Ge": "Le"}[cd.op])):
+            if any(x[0] == "call" and x[1].endswith("::packed_len") for x in pw_.of_operand(a_)) and q.const_or_array_len(wr, b__) == 4:
+                le_t = cd.true_target() if op_ == "Le" else (cd.false_target() if op_ == "Gt" else None)
+                if le_t is not None:
+                    gd = all(c.bb in q.edge_dominated(wr, cd.bb, le_t) for c in dl)
     rep.ob(P, "write-max-4" + tag, gd, "values longer than 4 bytes are refused before anything is sent (expedited only)", loc=wr.span)
 
 
@@ -251,6 +256,29 @@ def arrays(prog, rep, tag):
         rn = [c for c in r.calls() if (c.decl_s or "").endswith("RangeInclusive::new")]
         d["range-1..=len"] = len(rn) == 1 and q.const_int(rn[0].args[0]) == 1 and has_root(pr.of_operand(rn[0].args[1]), "await", "Coe::sdo_read")
         d["sub-index-loop-var"] = any(x[0] == "call" and x[1].endswith("::next") for x in pr.of_operand(rs[1].args[2]))
+        if not (d["range-1..=len"] and d["sub-index-loop-var"]):
+            # the same walk with an explicit counter: starts at 0, is incremented by one before each read, and the loop
+            # runs while counter < count - sub-indices 1..=count
+            sub = pr.of_operand(rs[1].args[2])
+            cl = q.local_of(rs[1].args[2])
+            for _ in range(3):
+                ds_ = r.defs().get(cl, []) if cl is not None else []
+                if len(ds_) == 1 and ds_[0][2] == "assign" and ds_[0][3]["rv"]["k"] == "use" and q.local_of(ds_[0][3]["rv"]["a"][0]) is not None:
+                    cl = q.local_of(ds_[0][3]["rv"]["a"][0])
+                else:
+                    break
+            stores = r.defs().get(cl, []) if cl is not None else []
+            init0 = any(x[2] == "assign" and x[3]["rv"]["k"] == "use" and q.const_int(x[3]["rv"]["a"][0]) == 0 for x in stores)
+            incs = [x for x in stores if x[2] == "assign" and has_root(pr._of_rvalue(x[3]["rv"]), "binop", "Add") and has_root(pr._of_rvalue(x[3]["rv"]), "const", 1)]
+            inc_before_read = bool(incs) and all(r.dominates(x[0], rs[1].bb) and rs[1].bb in r.reachable_from(x[0]) for x in incs) and len(stores) == len(incs) + 1
+            lt = False
+            for cd in q.conds(r):
+                e = q.rel_edges(cd, lambda x: cl is not None and q.local_of(cd.lhs) is not None and (has_root(x, "binop", "Add") or has_root(x, "const", 0)) and not has_root(x, "await", "Coe::sdo_read"), lambda x: has_root(x, "await", "Coe::sdo_read") and not has_root(x, "binop"), pr)
+                t = e.get("Lt")
+                if t is not None and rs[1].bb in q.edge_dominated(r, cd.bb, t):
+                    lt = True
+            if init0 and inc_before_read and lt:
+                d["range-1..=len"] = d["sub-index-loop-var"] = True
         cap = False
         for cd in q.conds(r):
             e = q.rel_edges(cd, lambda x: has_root(x, "await", "Coe::sdo_read"), lambda x: any(y[0] == "const" and "MAX_ENTRIES" in str(y) for y in x), pr)
